@@ -808,7 +808,8 @@ func runLX(c *Ctx) (obls []Obl) {
 			a.bad("LX-swo", "uint64Slice.Less", "not the plain a[i] < a[j]", fd.Pos())
 		}
 	} else {
-		a.und("LX-swo", "uint64Slice.Less", "not found", token.NoPos)
+		// the helper type is gone: whoever sorts pointer values now is MO-range's business (slices.Sort is total)
+		a.ok("LX-swo", "uint64Slice.Less", "no uint64Slice sort helper in this tree (the sort of the pointer values is classified by MO-range)", token.NoPos)
 	}
 	// the Aggregate comparator
 	if fd := find("Snapshot", "Aggregate"); fd != nil {
@@ -1112,6 +1113,15 @@ func lxEnum(c *Ctx, a *flAgg) {
 				return "copy", true
 			}
 		case *ssa.Field:
+			// a field of an element of a local table (array/slice literal) all of
+			// whose entries hold accepted values
+			if ld, ok := v.X.(*ssa.UnOp); ok && ld.Op == token.MUL {
+				if ia, ok := ld.X.(*ssa.IndexAddr); ok {
+					if what, ok := tableField(ia.X, v.Field, func(x ssa.Value) bool { _, ok := okVal(x, depth+1, seen); return ok }); ok {
+						return what, true
+					}
+				}
+			}
 			if isLoc(v.Type()) {
 				return "copy", true
 			}
@@ -1178,6 +1188,51 @@ func lxEnum(c *Ctx, a *flAgg) {
 		}
 	}
 	c.stat("LX", "location_stores", n)
+}
+
+// tableField: base is a local array (or a slice of one) filled only by the
+// stores of a composite literal; every value stored into the given field of
+// its elements satisfies ok.
+func tableField(base ssa.Value, field int, ok func(ssa.Value) bool) (string, bool) {
+	if sl, isS := base.(*ssa.Slice); isS {
+		base = sl.X
+	}
+	al, isA := base.(*ssa.Alloc)
+	if !isA {
+		return "", false
+	}
+	n := 0
+	for _, r := range *al.Referrers() {
+		switch r := r.(type) {
+		case *ssa.IndexAddr:
+			for _, r2 := range *r.Referrers() {
+				switch r2 := r2.(type) {
+				case *ssa.FieldAddr:
+					for _, r3 := range *r2.Referrers() {
+						if st, isSt := r3.(*ssa.Store); isSt && st.Addr == ssa.Value(r2) && r2.Field == field {
+							if !ok(st.Val) {
+								return "", false
+							}
+							n++
+						}
+					}
+				case *ssa.Store:
+					if r2.Addr == ssa.Value(r) {
+						return "", false // whole-element store: not followed
+					}
+				}
+			}
+		case *ssa.Slice, *ssa.DebugRef:
+		default:
+			if _, isLoad := r.(*ssa.UnOp); !isLoad {
+				return "", false
+			}
+		}
+	}
+	if n == 0 {
+		return "", false
+	}
+	return fmt.Sprintf("table(%d entries)", n), true
 }
 
 func enclosingFuncName(f *ast.File, pos token.Pos) string {
